@@ -322,6 +322,7 @@ class C16:
         nontrivial = probes.get('export_repeated', 0) > 0
         return {'digest': log.digest(), 'events': log.seq, 'faults': faults, 'probes': probes,
                 'shape': digest_of([plan.get('primary'), kinds]), 'nontrivial': nontrivial, 'config': plan['config'],
+                'hash_sensitive': any(o['op'] == 'int_exp' for o in plan['ops']),
                 'violations': viol, 'extra': {'primary': GRID.index(tuple(plan['primary'])) if tuple(plan['primary']) in GRID else -1}}
 
     @staticmethod
